@@ -95,3 +95,71 @@ def _mdx(c):
     c.ensures("isinstance(result, StreamOffset) and result.offset == 64 and result.substream is parent_stream and result.position == 0", "window-after-the-header")
     c.ensures("result.end_of_file == u64le(parent_stream.content, old(parent_stream.cur) + 48) - 64", "length-is-stored-eof-minus-header")
     c.modifies("parent_stream.cur")
+
+
+# ================================================================================================== C09: the dispatch of an opened file
+# determine_image_type on an already opened binary file: unwrap MDF, else MDX, else nothing; then Roland if the (unwrapped) stream
+# says so, else AKAI.  Streams are abstract values with an identity number; the detection predicates are abstract PURE functions of the
+# stream they are given (their reading of bytes is the view contracts' business), the constructors record what they wrapped.
+STREAMV = ("rec", "AnyStream", {"sid": "int", "wrap": "int", "inner": "int"})     # wrap: 0 raw, 1 MDF view, 2 MDX window
+
+
+def _detector(key, tag):
+    @contract(key + "#abstract", abstract=True, assumed=True, note=f"{tag}: a pure function of the stream it is given (restores the cursor)")
+    def _d(c):
+        c.param("stream", STREAMV)
+        c.returns("bool")
+        c.ensures(f"result == uf_bool('{tag}', stream.sid, stream.wrap, stream.inner)")
+        c.modifies()
+    return _d
+
+
+_detector("smpl_extract.alcohol.mdf:is_mdf_image", "is_mdf")
+_detector("smpl_extract.alcohol.mdx:is_mdx_image", "is_mdx")
+_detector("smpl_extract.roland.s7xx.image:is_roland_s7xx_image", "is_roland")
+
+
+def _wrapper(key, wrap):
+    @contract(key + "#abstract", abstract=True, assumed=False, note="records what was wrapped (the view itself is under contract in util_stream.py / above)")
+    def _w(c):
+        c.param("parent_stream", STREAMV)
+        c.returns(STREAMV)
+        c.ensures(f"result.wrap == {wrap} and result.inner == parent_stream.sid and result.sid == parent_stream.sid")
+        c.modifies()
+    return _w
+
+
+_wrapper("smpl_extract.alcohol.mdf:MdfStream", 1)
+_wrapper("smpl_extract.alcohol.mdx:MdxStream", 2)
+
+
+def _parser(key, kind):
+    @contract(key + "#abstract", abstract=True, assumed=False, note="the image parser object over the given stream")
+    def _p(c):
+        c.param("file", STREAMV)
+        c.returns(("rec", "OpenedImage", {"kind": "int", "over_sid": "int", "over_wrap": "int"}))
+        c.ensures(f"result.kind == {kind} and result.over_sid == file.sid and result.over_wrap == file.wrap")
+        c.modifies()
+    return _p
+
+
+_parser("smpl_extract.roland.s7xx.image:RolandSxxImageParser", 1)
+_parser("smpl_extract.akai.image:AkaiImageParser", 2)
+
+
+@contract("smpl_extract.actions:determine_image_type[opened-file]", source_key="smpl_extract.actions:determine_image_type", props=["C09"], proof_only=True)
+def _dit(c):
+    c.param("file", STREAMV)
+    c.requires("file.wrap == 0 and file.inner == 0")
+    c.abstract_calls = {"is_mdf_image": "smpl_extract.alcohol.mdf:is_mdf_image#abstract", "is_mdx_image": "smpl_extract.alcohol.mdx:is_mdx_image#abstract",
+                        "is_roland_s7xx_image": "smpl_extract.roland.s7xx.image:is_roland_s7xx_image#abstract",
+                        "MdfStream": "smpl_extract.alcohol.mdf:MdfStream#abstract", "MdxStream": "smpl_extract.alcohol.mdx:MdxStream#abstract",
+                        "RolandSxxImageParser": "smpl_extract.roland.s7xx.image:RolandSxxImageParser#abstract",
+                        "AkaiImageParser": "smpl_extract.akai.image:AkaiImageParser#abstract"}
+    c.define("mdf", [], "uf_bool('is_mdf', file.sid, 0, 0)")
+    c.define("mdx", [], "uf_bool('is_mdx', file.sid, 0, 0)")
+    c.define("w", [], "ite(mdf(), 1, ite(mdx(), 2, 0))")
+    # the container is removed first (MDF before MDX), and the KIND of image is decided on the unwrapped stream only
+    c.ensures("result.over_sid == file.sid and result.over_wrap == w()", "the-parser-reads-through-the-right-unwrapping")
+    c.ensures("result.kind == ite(uf_bool('is_roland', file.sid, w(), ite(w() == 0, 0, file.sid)), 1, 2)", "kind-is-decided-on-the-unwrapped-stream")
+    c.modifies()
